@@ -98,21 +98,25 @@ def stepKeys : Step → List Path
   | .years p => [p]
   | _ => []
 
-/-- hypotheses of `C17_partial` that are false for an operation -/
-def opHyps : Mkts.Catalog.Op → List String
-  | .create items cats _ => if items.length == 3 && cats == defaultCats then [] else ["nondefault_create"]
-  | .write items _ _ => if items.length == 3 then [] else ["nondefault_create"]
-  | .destroy items => if items.length == 3 then [] else ["prefix_destroy"]
-  | .restart => []
+/-- hypotheses of `C17_partial` that are false for an operation (`key3`) / its result (`midway`) -/
+def opHyps (o : Mkts.Catalog.Op) (r : Res) : List String :=
+  (match o with
+   | .create items _ _ => if items.length == 3 then [] else ["key_not_3_items"]
+   | .write items _ _ => if items.length == 3 then [] else ["key_not_3_items"]
+   | .destroy items => if items.length == 3 then [] else ["prefix_destroy"]
+   | .restart => []) ++
+  (if r == .catMismatch || r == .panicIndex || r == .notInCatalog then ["create_failed_midway"] else [])
 
-def runSteps (nowYear : Int) (keys : List Path) : List Step → St → Bool → List String → List String × Bool
+def runSteps (nowYear : Int) (keys : List Path) :
+    List Step → St → Bool × List String → List String → List String × Bool × List String
   | [], _, allc, acc => (acc.reverse, allc)
   | stp :: rest, st, allc, acc =>
     match stp with
     | .op tag o =>
       let r := step nowYear st o
       let c := consistent r.1 keys
-      runSteps nowYear keys rest r.1 (allc && c) ((tag ++ "=" ++ r.2.str ++ "/" ++ (if c then "1" else "0")) :: acc)
+      runSteps nowYear keys rest r.1 (allc.1 && c, allc.2 ++ opHyps o r.2)
+        ((tag ++ "=" ++ r.2.str ++ "/" ++ (if c then "1" else "0")) :: acc)
     | .info p =>
       let out := match info st p with
         | none => "I=err:nokey"
@@ -131,8 +135,8 @@ def catOp : Mkts.Proto.Op := fun args =>
     match parseInt ny, steps.mapM parseStep with
     | some nowYear, some sl =>
       let keys := (sl.flatMap stepKeys).filter (fun p => p.length == 3)
-      let (toks, allc) := runSteps nowYear keys sl St.init true []
-      let hyps := dedup (sl.flatMap (fun stp => match stp with | .op _ o => opHyps o | _ => []))
+      let (toks, allc, hs) := runSteps nowYear keys sl St.init (true, []) []
+      let hyps := dedup hs
       let line := " ".intercalate (toks ++ ["P=" ++ (if allc then "1" else "0")])
       s!"M:{line}\tS:~P=1\tH:{",".intercalate hyps}"
     | _, _ => badArgs
